@@ -21,11 +21,11 @@ const (
 
 func init() {
 	register(&Property{
-		ID:  "C11",
-		Run: runC11,
-		Explain: "Static structural necessary conditions of the status state machine. Decided: (R1) the transition relation, a constant map literal, is extracted and checked exhaustively (8x8) against the constraints of the property text and docs/component-status.md; (R2) the transition function stores the new state and invokes the callback only on the lookup-succeeded side and with the stored event; (R3) only the transition function and the constructor write fsm.current / invoke the callback; (R4) the automatic OK is guarded by current==Starting; (R5) the reporter's FSM map and every transition call happen under the reporter mutex (must-lockset); (R6) every lifecycle site brackets Start/Shutdown with Starting/PermanentError/Stopping/Stopped reports; (R7) the shared-component host wrapper forwards to every source and replays before appending, under its lock.",
+		ID:         "C11",
+		Run:        runC11,
+		Explain:    "Static structural necessary conditions of the status state machine. Decided: (R1) the transition relation, a constant map literal, is extracted and checked exhaustively (8x8) against the constraints of the property text and docs/component-status.md; (R2) the transition function stores the new state and invokes the callback only on the lookup-succeeded side and with the stored event; (R3) only the transition function and the constructor write fsm.current / invoke the callback; (R4) the automatic OK is guarded by current==Starting; (R5) the reporter's FSM map and every transition call happen under the reporter mutex (must-lockset); (R6) every lifecycle site brackets Start/Shutdown with Starting/PermanentError/Stopping/Stopped reports; (R7) the shared-component host wrapper forwards to every source and replays before appending, under its lock.",
 		NotDecided: "Interleavings beyond mutual exclusion (observer ordering across instances); that callbacks registered by extensions do not re-enter the reporter.",
-		Assumes: []string{"sync.Mutex provides mutual exclusion", "status constants are the iota enumeration in component/componentstatus"},
+		Assumes:    []string{"sync.Mutex provides mutual exclusion", "status constants are the iota enumeration in component/componentstatus"},
 	})
 }
 
@@ -497,10 +497,10 @@ func runC11(c *Ctx) {
 		return ok && typeIs(pt.Elem(), pkgCompStatus, "InstanceID")
 	})
 	lc := &LockClass{Name: "reporter.mu", Pkgs: []*packages.Package{spk},
-		Mutexes: map[fieldKey]bool{{reporterT, muField}: true},
-		Guarded: map[fieldKey]bool{{reporterT, mapField}: true, {fsmT, curField}: true},
+		Mutexes:    map[fieldKey]bool{{reporterT, muField}: true},
+		Guarded:    map[fieldKey]bool{{reporterT, mapField}: true, {fsmT, curField}: true},
 		NotGuarded: map[fieldKey]string{},
-		Structs: []*types.Named{reporterT, fsmT},
+		Structs:    []*types.Named{reporterT, fsmT},
 		MustHoldCall: func(call ssa.CallInstruction) (string, bool) {
 			if transObj != nil && calleeOf(call) == transObj {
 				return "fsm.transition", true
